@@ -34,4 +34,10 @@ macro rfuncs(r) = (*r).nodeRendererFuncs
 func (*renderer).Render$2
   requires n != nil && *r != nil
   ensures [skip] old(kindOf(n) < 0 || kindOf(n) >= len(rfuncs(r)) || rfuncs(r)[kindOf(n)] == nil) ==> (result0 == ast.WalkContinue && result1 == nil)
+
+// Register (only meaningful before the first Render, while the temporary table exists)
+func (*renderer).Register
+  requires r.nodeRendererFuncsTmp != nil
+  ensures r.maxKind >= kind && r.maxKind >= old(r.maxKind)
+  modifies r.maxKind, mapcontents(r.nodeRendererFuncsTmp)
 @*/
